@@ -8,7 +8,7 @@ PROP=$1; OUT=$2; AGWT=$3; NAME=$4; shift 4; EXTRA="$@"
 export GOFLAGS=-mod=mod GOPROXY=off GOSUMDB=off GOTOOLCHAIN=local
 SCR=/tmp/seedv/$NAME
 rm -rf $SCR; git -C /repo worktree prune; mkdir -p /tmp/seedv
-git -C /repo worktree add -q --detach $SCR HEAD || exit 2
+git -C /repo worktree add -q --detach $SCR ${SEED_BASE:-HEAD} || exit 2
 DEMO=$SCR/.demo.sh
 if [ -f $OUT/demo.sh ]; then sed "s|$AGWT|$SCR|g" $OUT/demo.sh > $DEMO; chmod +x $DEMO; else echo "no demo.sh"; fi
 res_before=NA; res_after=NA; tests=NA
